@@ -170,6 +170,9 @@ def conditions(tier):
         conds.append(_align_cond(na, nb, wrapped=w))
     for n in ([4, 6] if tier == "quick" else [4, 6, 8]):
         conds.append(_addx_cond(n))
+    from harness import c10
+
+    conds += c10.conditions_c11b(tier)  # (b) verbatim survival through the real fix pipeline
     return conds
 
 
